@@ -1,9 +1,27 @@
 use crate::eng::*;
 pub fn run() {
-    let env = llguidance::toktrie::ApproximateTokEnv::single_byte_env();
-    let lark = "start: T T\nT: /(ab)+/\n";
-    let mut m = new_matcher(&env, lark, &[]).unwrap();
-    println!("created");
-    let r = m.compute_mask();
-    println!("mask {:?}", r.map(|v| mask_list(&v)));
+    let (ws, eos) = single_byte_vocab();
+    let env = make_env(&ws, eos, false);
+    for lark in [
+        "start: T\nT: (\"ab\" | /[c-d]/){1,2} & ~(\"abab\")\n",
+        "start: T\nT: ~(/a+/) & /[ab]{0,2}/\n",
+        "start: T\nT: (\"a\" \"b\"?)* \n",
+        "start: T\nT: \"\\x61\\u00e9\" /[a-b]/\n",
+    ] {
+        match new_matcher(&env, lark, &[]) {
+            Ok(mut m) => {
+                print!("OK   {:?}: ", lark);
+                for s in ["", "ab", "abab", "abc", "c", "b", "bb", "aa", "aéa"] {
+                    let mut c = m.deep_clone();
+                    let mut ok = true;
+                    for &b in s.as_bytes() { if c.is_stopped() || c.consume_token(b as u32).is_err() { ok = false; break; } }
+                    let acc = ok && c.is_accepting().unwrap_or(false);
+                    print!("{s:?}={} ", acc);
+                }
+                println!();
+                let _ = m.compute_mask();
+            }
+            Err(e) => println!("ERR  {:?}: {}", lark, e.lines().next().unwrap_or("")),
+        }
+    }
 }
